@@ -7,7 +7,7 @@ PROFILE = {"publish": 6, "ack": 4, "inbound": 10, "connect": 10, "fault": 10, "r
 
 
 def keep(l):
-    return l.startswith(("rs ", "ev dial", "ev close", "ret ", "blocked", "close", "disconnect", "hang", "spin", "backoff"))
+    return l.startswith(("rs ", "ev dial", "ev close", "ret ", "blocked", "close", "disconnect", "hang", "spin", "backoff", "sig "))
 
 
 def mon_redial(tr, sc):
